@@ -127,11 +127,17 @@ class ScalarProbe(Probe):
         refv, defined = self.ref(*vals)
         out = []
         values = {n: v for n, v in zip(self.argnames, vals)}
-        for pi, s in enumerate(finals):
+        # a _Bool argument has two values: decide each case separately (the solver then propagates constants)
+        import itertools
+        bools = [v for v, t in zip(vals, self.args) if t.is_bool]
+        cases = [[]]
+        if bools and any(is_fp(t) for t in list(self.args) + [self.ret] if t is not None):
+            cases = [[v == asmx.bv(c, 8) for v, c in zip(bools, combo)] for combo in itertools.product((0, 1), repeat=len(bools))]
+        for (pi, s), (ci, case) in itertools.product(enumerate(finals), enumerate(cases)):
             if s.dead:
                 continue
-            H = hyps + [defined] + s.pc
-            tag = "" if len(finals) == 1 else "/path%d" % pi
+            H = hyps + [defined] + s.pc + case
+            tag = ("" if len(finals) == 1 else "/path%d" % pi) + ("" if len(cases) == 1 else "/b%d" % ci)
             if s.wild:
                 out.append(Goal("wildjump" + tag, H, z3.BoolVal(False), values))
                 continue
